@@ -154,6 +154,10 @@ class IndexedSet(MutableSet):
             if ded and ded[-1][1] == len(items):
                 del ded[-1]
             del items[-num_dead:]
+            # adjacent dead runs are not always merged into a single
+            # interval, so more than one may lie in the removed tail
+            while ded and ded[-1][0] >= len(items):
+                del ded[-1]
 
     def _get_real_index(self, index):
         if index < 0:
